@@ -3,6 +3,10 @@ import Mathlib.Tactic.Ring
 import Mathlib.Tactic.Linarith
 import Mathlib.Tactic.Positivity
 import Mathlib.Data.Rat.Floor
+import Mathlib.Tactic.LinearCombination
+import Mathlib.Tactic.GCongr
+import Mathlib.Tactic.Push
+import Mathlib.Algebra.Order.Floor.Ring
 /-!
 # Geometry shared by C02, C05, C07, C11, C12, C17, C18: the certified minimum image
 
@@ -26,30 +30,214 @@ open G
 def PosDef (G : Sym3) : Prop :=
   0 < G.a ∧ 0 < G.d ∧ 0 < G.g ∧ 0 < G.adj1 ∧ 0 < G.adj2 ∧ 0 < G.adj3 ∧ 0 < G.det
 
+private theorem sumsq_pos (x y z : ℚ) (h : ¬ (x = 0 ∧ y = 0 ∧ z = 0)) : 0 < x ^ 2 + y ^ 2 + z ^ 2 := by
+  by_contra hc
+  have hle : x ^ 2 + y ^ 2 + z ^ 2 ≤ 0 := not_lt.mp hc
+  have hx : x ^ 2 = 0 := le_antisymm (by linarith [sq_nonneg y, sq_nonneg z]) (sq_nonneg x)
+  have hy : y ^ 2 = 0 := le_antisymm (by linarith [sq_nonneg x, sq_nonneg z]) (sq_nonneg y)
+  have hz : z ^ 2 = 0 := le_antisymm (by linarith [sq_nonneg x, sq_nonneg y]) (sq_nonneg z)
+  exact h ⟨pow_eq_zero_iff (two_ne_zero) |>.mp hx, pow_eq_zero_iff (two_ne_zero) |>.mp hy,
+    pow_eq_zero_iff (two_ne_zero) |>.mp hz⟩
+
 /-- the metric tensor of any non-degenerate cell is positive definite, so every theorem below
 applies to every lattice a trajectory can have -/
 theorem metric_posdef (M : M3) (h : M.det ≠ 0) : PosDef M.metric := by
-  sorry
+  obtain ⟨⟨x1, y1, z1⟩, ⟨x2, y2, z2⟩, ⟨x3, y3, z3⟩⟩ := M
+  simp only [M3.det] at h
+  simp only [PosDef, M3.metric, V3.dot, Sym3.adj1, Sym3.adj2, Sym3.adj3, Sym3.det]
+  -- squared lengths of the rows
+  have ha : x1 * x1 + y1 * y1 + z1 * z1 = x1 ^ 2 + y1 ^ 2 + z1 ^ 2 := by ring
+  have hd : x2 * x2 + y2 * y2 + z2 * z2 = x2 ^ 2 + y2 ^ 2 + z2 ^ 2 := by ring
+  have hg : x3 * x3 + y3 * y3 + z3 * z3 = x3 ^ 2 + y3 ^ 2 + z3 ^ 2 := by ring
+  -- Lagrange identities: the 2×2 principal minors are squared lengths of cross products
+  have h3 : (x1 * x1 + y1 * y1 + z1 * z1) * (x2 * x2 + y2 * y2 + z2 * z2)
+      - (x1 * x2 + y1 * y2 + z1 * z2) ^ 2
+      = (x1 * y2 - y1 * x2) ^ 2 + (x1 * z2 - z1 * x2) ^ 2 + (y1 * z2 - z1 * y2) ^ 2 := by ring
+  have h2 : (x1 * x1 + y1 * y1 + z1 * z1) * (x3 * x3 + y3 * y3 + z3 * z3)
+      - (x1 * x3 + y1 * y3 + z1 * z3) ^ 2
+      = (x1 * y3 - y1 * x3) ^ 2 + (x1 * z3 - z1 * x3) ^ 2 + (y1 * z3 - z1 * y3) ^ 2 := by ring
+  have h1 : (x2 * x2 + y2 * y2 + z2 * z2) * (x3 * x3 + y3 * y3 + z3 * z3)
+      - (x2 * x3 + y2 * y3 + z2 * z3) ^ 2
+      = (x2 * y3 - y2 * x3) ^ 2 + (x2 * z3 - z2 * x3) ^ 2 + (y2 * z3 - z2 * y3) ^ 2 := by ring
+  -- det (M Mᵀ) = (det M)²
+  have hdet : (x1 * x1 + y1 * y1 + z1 * z1) * (x2 * x2 + y2 * y2 + z2 * z2) * (x3 * x3 + y3 * y3 + z3 * z3)
+      + 2 * (x1 * x2 + y1 * y2 + z1 * z2) * (x2 * x3 + y2 * y3 + z2 * z3) * (x1 * x3 + y1 * y3 + z1 * z3)
+      - (x1 * x3 + y1 * y3 + z1 * z3) ^ 2 * (x2 * x2 + y2 * y2 + z2 * z2)
+      - (x1 * x2 + y1 * y2 + z1 * z2) ^ 2 * (x3 * x3 + y3 * y3 + z3 * z3)
+      - (x1 * x1 + y1 * y1 + z1 * z1) * (x2 * x3 + y2 * y3 + z2 * z3) ^ 2
+      = (x1 * (y2 * z3 - z2 * y3) - y1 * (x2 * z3 - z2 * x3) + z1 * (x2 * y3 - y2 * x3)) ^ 2 := by
+    ring
+  rw [h1, h2, h3, hdet, ha, hd, hg]
+  refine ⟨?_, ?_, ?_, ?_, ?_, ?_, ?_⟩
+  · apply sumsq_pos
+    rintro ⟨e1, e2, e3⟩
+    apply h; rw [e1, e2, e3]; ring
+  · apply sumsq_pos
+    rintro ⟨e1, e2, e3⟩
+    apply h; rw [e1, e2, e3]; ring
+  · apply sumsq_pos
+    rintro ⟨e1, e2, e3⟩
+    apply h; rw [e1, e2, e3]; ring
+  · apply sumsq_pos
+    rintro ⟨e1, e2, e3⟩
+    apply h; linear_combination x1 * e3 - y1 * e2 + z1 * e1
+  · apply sumsq_pos
+    rintro ⟨e1, e2, e3⟩
+    apply h; linear_combination (-x2) * e3 + y2 * e2 - z2 * e1
+  · apply sumsq_pos
+    rintro ⟨e1, e2, e3⟩
+    apply h; linear_combination x3 * e3 - y3 * e2 + z3 * e1
+  · positivity
+
+/-- the scalar form of `coord_sq_le₁`: one polynomial identity (completion of squares) -/
+private theorem coord1 (a b c d e g x y z : ℚ) (hd : 0 < d) (hm : 0 < d*g - e^2) :
+    (a*d*g + 2*b*e*c - c^2*d - b^2*g - a*e^2) * x^2
+      ≤ (d*g - e^2) * (a*x^2 + d*y^2 + g*z^2 + 2*b*x*y + 2*c*x*z + 2*e*y*z) := by
+  have key : d * (d*g - e^2) *
+      ((d*g - e^2) * (a*x^2 + d*y^2 + g*z^2 + 2*b*x*y + 2*c*x*z + 2*e*y*z)
+        - (a*d*g + 2*b*e*c - c^2*d - b^2*g - a*e^2) * x^2)
+      = (d*((b*g - c*e)*x + (d*g - e^2)*y) + e*((c*d - b*e)*x + (d*g - e^2)*z))^2
+        + (d*g - e^2) * ((c*d - b*e)*x + (d*g - e^2)*z)^2 := by ring
+  have hpos : 0 < d * (d*g - e^2) := mul_pos hd hm
+  have hrhs : 0 ≤ (d*((b*g - c*e)*x + (d*g - e^2)*y) + e*((c*d - b*e)*x + (d*g - e^2)*z))^2
+        + (d*g - e^2) * ((c*d - b*e)*x + (d*g - e^2)*z)^2 := by positivity
+  rw [← key] at hrhs
+  have := (mul_nonneg_iff_of_pos_left hpos).mp hrhs
+  linarith
 
 theorem coord_sq_le₁ (G : Sym3) (h : PosDef G) (v : V3) : G.det * v.x ^ 2 ≤ G.adj1 * G.Q v := by
-  sorry
+  obtain ⟨a, b, c, d, e, g⟩ := G
+  obtain ⟨x, y, z⟩ := v
+  obtain ⟨_, hd, _, h1, _, _, _⟩ := h
+  simp only [Sym3.adj1] at h1
+  simp only [Sym3.det, Sym3.adj1, Sym3.Q]
+  exact coord1 a b c d e g x y z hd h1
 
 theorem coord_sq_le₂ (G : Sym3) (h : PosDef G) (v : V3) : G.det * v.y ^ 2 ≤ G.adj2 * G.Q v := by
-  sorry
+  obtain ⟨a, b, c, d, e, g⟩ := G
+  obtain ⟨x, y, z⟩ := v
+  obtain ⟨ha, _, _, _, h2, _, _⟩ := h
+  simp only [Sym3.adj2] at h2
+  simp only [Sym3.det, Sym3.adj2, Sym3.Q]
+  -- relabel x ↔ y: the matrix becomes [[d,b,e],[b,a,c],[e,c,g]]
+  have hh := coord1 d b e a c g y x z ha h2
+  have e1 : d*a*g + 2*b*c*e - e^2*a - b^2*g - d*c^2 = a*d*g + 2*b*e*c - c^2*d - b^2*g - a*e^2 := by
+    ring
+  have e2 : d*y^2 + a*x^2 + g*z^2 + 2*b*y*x + 2*e*y*z + 2*c*x*z
+      = a*x^2 + d*y^2 + g*z^2 + 2*b*x*y + 2*c*x*z + 2*e*y*z := by ring
+  rw [e1, e2] at hh
+  exact hh
 
 theorem coord_sq_le₃ (G : Sym3) (h : PosDef G) (v : V3) : G.det * v.z ^ 2 ≤ G.adj3 * G.Q v := by
-  sorry
+  obtain ⟨a, b, c, d, e, g⟩ := G
+  obtain ⟨x, y, z⟩ := v
+  obtain ⟨_, hd, _, _, _, h3, _⟩ := h
+  simp only [Sym3.adj3] at h3
+  simp only [Sym3.det, Sym3.adj3, Sym3.Q]
+  -- relabel x ↔ z: the matrix becomes [[g,e,c],[e,d,b],[c,b,a]]
+  have h3' : 0 < d * a - b ^ 2 := by linarith [h3, mul_comm a d]
+  have hh := coord1 g e c d b a z y x hd h3'
+  have e1 : g*d*a + 2*e*b*c - c^2*d - e^2*a - g*b^2 = a*d*g + 2*b*e*c - c^2*d - b^2*g - a*e^2 := by
+    ring
+  have e2 : g*z^2 + d*y^2 + a*x^2 + 2*e*z*y + 2*c*z*x + 2*b*y*x
+      = a*x^2 + d*y^2 + g*z^2 + 2*b*x*y + 2*c*x*z + 2*e*y*z := by ring
+  have e3 : d * a - b ^ 2 = a * d - b ^ 2 := by ring
+  rw [e1, e2, e3] at hh
+  exact hh
 
 /-- translate a fractional vector by an integer vector -/
 def shiftBy (f : V3) (n1 n2 n3 : ℤ) : V3 := ⟨f.x + n1, f.y + n2, f.z + n3⟩
 
+theorem listMin_le_init : ∀ (l : List ℚ) (m : ℚ), listMin l m ≤ m := by
+  intro l
+  induction l with
+  | nil => intro m; exact le_refl m
+  | cons x xs ih =>
+    intro m
+    unfold listMin
+    refine le_trans (ih _) ?_
+    split
+    · rename_i hx; exact le_of_lt hx
+    · exact le_refl m
+
+theorem listMin_le_mem : ∀ (l : List ℚ) (m x : ℚ), x ∈ l → listMin l m ≤ x := by
+  intro l
+  induction l with
+  | nil => intro m x hx; simp at hx
+  | cons y ys ih =>
+    intro m x hx
+    unfold listMin
+    rcases List.mem_cons.mp hx with hx | hx
+    · subst hx
+      refine le_trans (listMin_le_init _ _) ?_
+      split
+      · exact le_refl x
+      · rename_i hx; exact not_lt.mp hx
+    · exact ih _ x hx
+
+theorem listMin_mem : ∀ (l : List ℚ) (m : ℚ), listMin l m = m ∨ listMin l m ∈ l := by
+  intro l
+  induction l with
+  | nil => intro m; exact Or.inl rfl
+  | cons y ys ih =>
+    intro m
+    unfold listMin
+    rcases ih (if y < m then y else m) with h | h
+    · split at h
+      · rename_i hy
+        right; rw [if_pos hy, h]; exact List.mem_cons_self
+      · rename_i hy
+        left; rw [if_neg hy, h]
+    · right; exact List.mem_cons_of_mem _ h
+
+theorem mem_intRange (K : ℕ) (n : ℤ) : n ∈ intRange K ↔ |n| ≤ (K : ℤ) := by
+  unfold intRange
+  simp only [List.mem_map, List.mem_range]
+  rw [abs_le]
+  constructor
+  · rintro ⟨k, hk, rfl⟩
+    constructor <;> omega
+  · rintro ⟨hl, hu⟩
+    refine ⟨(n + K).toNat, ?_, ?_⟩ <;> omega
+
+/-- the list of values `boxMin` minimises over -/
+private def boxVals (G : Sym3) (f : V3) (K : ℕ) : List ℚ :=
+  (intRange K).flatMap (fun (n1 : Int) => (intRange K).flatMap (fun (n2 : Int) =>
+    (intRange K).map (fun (n3 : Int) =>
+      G.Q ⟨f.x + (n1 : Rat), f.y + (n2 : Rat), f.z + (n3 : Rat)⟩)))
+
+private theorem boxMin_eq (G : Sym3) (f : V3) (K : ℕ) :
+    boxMin G f K = listMin (boxVals G f K) (G.Q f) := rfl
+
+private theorem mem_boxVals (G : Sym3) (f : V3) (K : ℕ) (x : ℚ) :
+    x ∈ boxVals G f K ↔
+      ∃ n1 n2 n3 : ℤ, |n1| ≤ (K : ℤ) ∧ |n2| ≤ (K : ℤ) ∧ |n3| ≤ (K : ℤ) ∧ x = G.Q (shiftBy f n1 n2 n3) := by
+  unfold boxVals shiftBy
+  simp only [List.mem_flatMap, List.mem_map, mem_intRange]
+  constructor
+  · rintro ⟨n1, h1, n2, h2, n3, h3, rfl⟩
+    exact ⟨n1, n2, n3, h1, h2, h3, rfl⟩
+  · rintro ⟨n1, n2, n3, h1, h2, h3, rfl⟩
+    exact ⟨n1, h1, n2, h2, n3, h3, rfl⟩
+
 theorem boxMin_le (G : Sym3) (f : V3) (K : ℕ) (n1 n2 n3 : ℤ)
     (h1 : |n1| ≤ K) (h2 : |n2| ≤ K) (h3 : |n3| ≤ K) : boxMin G f K ≤ G.Q (shiftBy f n1 n2 n3) := by
-  sorry
+  rw [boxMin_eq]
+  apply listMin_le_mem
+  exact (mem_boxVals G f K _).mpr ⟨n1, n2, n3, h1, h2, h3, rfl⟩
 
 theorem boxMin_attained (G : Sym3) (f : V3) (K : ℕ) :
     ∃ n1 n2 n3 : ℤ, |n1| ≤ K ∧ |n2| ≤ K ∧ |n3| ≤ K ∧ boxMin G f K = G.Q (shiftBy f n1 n2 n3) := by
-  sorry
+  rw [boxMin_eq]
+  rcases listMin_mem (boxVals G f K) (G.Q f) with h | h
+  · refine ⟨0, 0, 0, ?_, ?_, ?_, ?_⟩
+    · simp
+    · simp
+    · simp
+    · rw [h]
+      obtain ⟨x, y, z⟩ := f
+      simp [shiftBy]
+  · exact (mem_boxVals G f K _).mp h
 
 /-- **certificate theorem**: a box minimum `m` with `m · adj_ii ≤ (K+½)² · det G` for all `i`
 is a lower bound for every lattice image. -/
@@ -57,7 +245,109 @@ theorem minImage_certified (G : Sym3) (hpd : PosDef G) (f : V3)
     (hf1 : |f.x| ≤ 1 / 2) (hf2 : |f.y| ≤ 1 / 2) (hf3 : |f.z| ≤ 1 / 2) (K : ℕ)
     (hc : certOK G K (boxMin G f K) = true) :
     ∀ n1 n2 n3 : ℤ, boxMin G f K ≤ G.Q (shiftBy f n1 n2 n3) := by
-  sorry
+  intro n1 n2 n3
+  have hpd' : PosDef G := hpd
+  obtain ⟨_, _, _, p1, p2, p3, pdet⟩ := hpd
+  simp only [certOK, Bool.and_eq_true, decide_eq_true_eq] at hc
+  obtain ⟨⟨c1, c2⟩, c3⟩ := hc
+  have hm : ∀ n1 n2 n3 : ℤ, |n1| ≤ (K : ℤ) → |n2| ≤ (K : ℤ) → |n3| ≤ (K : ℤ) →
+      boxMin G f K ≤ G.Q (shiftBy f n1 n2 n3) := fun n1 n2 n3 => boxMin_le G f K n1 n2 n3
+  generalize boxMin G f K = m at c1 c2 c3 hm ⊢
+  -- a coordinate outside the box is at least K + 1/2 away from zero
+  have far : ∀ (t : ℚ) (n : ℤ), |t| ≤ 1/2 → ¬ |n| ≤ (K : ℤ) → ((K : ℚ) + 1/2)^2 ≤ (t + n)^2 := by
+    intro t n ht hn
+    have hn' : (K : ℤ) + 1 ≤ |n| := by omega
+    have hnq : (K : ℚ) + 1 ≤ |(n : ℚ)| := by
+      have := (Int.cast_le (R := ℚ)).mpr hn'
+      simpa [Int.cast_abs] using this
+    have habs : (K : ℚ) + 1/2 ≤ |t + n| := by
+      have := abs_sub_abs_le_abs_sub (n : ℚ) (-t)
+      simp only [sub_neg_eq_add, abs_neg] at this
+      have h' : |(n : ℚ) + t| = |t + n| := by rw [add_comm]
+      linarith
+    have hK : (0 : ℚ) ≤ (K : ℚ) + 1/2 := by positivity
+    calc ((K : ℚ) + 1/2)^2 ≤ |t + n|^2 := by gcongr
+      _ = (t + n)^2 := sq_abs _
+  -- from `det * w² ≤ adj * Q`, `m * adj ≤ (K+½)² * det`, `(K+½)² ≤ w²` conclude `m ≤ Q`
+  have fin : ∀ (adj w q : ℚ), 0 < adj → G.det * w ^ 2 ≤ adj * q →
+      m * adj ≤ ((K : ℚ) + 1/2)^2 * G.det → ((K : ℚ) + 1/2)^2 ≤ w ^ 2 → m ≤ q := by
+    intro adj w q hadj hco hce hw
+    have h1 : ((K : ℚ) + 1/2)^2 * G.det ≤ w ^ 2 * G.det := mul_le_mul_of_nonneg_right hw pdet.le
+    have h2 : adj * m ≤ adj * q := by linarith [mul_comm m adj, mul_comm (w ^ 2) G.det]
+    exact le_of_mul_le_mul_left h2 hadj
+  by_cases b1 : |n1| ≤ (K : ℤ)
+  · by_cases b2 : |n2| ≤ (K : ℤ)
+    · by_cases b3 : |n3| ≤ (K : ℤ)
+      · exact hm n1 n2 n3 b1 b2 b3
+      · exact fin G.adj3 (f.z + n3) _ p3 (coord_sq_le₃ G hpd' (shiftBy f n1 n2 n3)) c3 (far f.z n3 hf3 b3)
+    · exact fin G.adj2 (f.y + n2) _ p2 (coord_sq_le₂ G hpd' (shiftBy f n1 n2 n3)) c2 (far f.y n2 hf2 b2)
+  · exact fin G.adj1 (f.x + n1) _ p1 (coord_sq_le₁ G hpd' (shiftBy f n1 n2 n3)) c1 (far f.x n1 hf1 b1)
+
+/-- a value returned by the search loop is a certified box minimum -/
+theorem minImageSqAux_some (G : Sym3) (f : V3) : ∀ (fuel K : ℕ) (m : ℚ),
+    minImageSqAux G f fuel K = some m → ∃ K' : ℕ, m = boxMin G f K' ∧ certOK G K' m = true := by
+  intro fuel
+  induction fuel with
+  | zero => intro K m h; simp [minImageSqAux] at h
+  | succ fuel ih =>
+    intro K m h
+    unfold minImageSqAux at h
+    simp only at h
+    by_cases hc : certOK G K (boxMin G f K) = true
+    · rw [if_pos hc] at h
+      have hm : boxMin G f K = m := Option.some.inj h
+      exact ⟨K, hm.symm, by rw [← hm]; exact hc⟩
+    · rw [if_neg hc] at h
+      exact ih (K + 1) m h
+
+private theorem rne_cases (x : ℚ) :
+    (rne x = ⌊x⌋ ∧ x - (⌊x⌋ : ℚ) ≤ 1 / 2) ∨ (rne x = ⌊x⌋ + 1 ∧ 1 / 2 ≤ x - (⌊x⌋ : ℚ)) := by
+  have hf : x.floor = ⌊x⌋ := rfl
+  unfold rne
+  simp only [hf]
+  by_cases h1 : x - (⌊x⌋ : ℚ) < 1 / 2
+  · rw [if_pos h1]; exact Or.inl ⟨rfl, le_of_lt h1⟩
+  · rw [if_neg h1]
+    by_cases h2 : 1 / 2 < x - (⌊x⌋ : ℚ)
+    · rw [if_pos h2]; exact Or.inr ⟨rfl, le_of_lt h2⟩
+    · rw [if_neg h2]
+      have h3 : x - (⌊x⌋ : ℚ) = 1 / 2 := le_antisymm (not_lt.mp h2) (not_lt.mp h1)
+      by_cases h4 : ⌊x⌋ % 2 = 0
+      · rw [if_pos h4]; exact Or.inl ⟨rfl, le_of_eq h3⟩
+      · rw [if_neg h4]; exact Or.inr ⟨rfl, le_of_eq h3.symm⟩
+
+/-- `d − round(d)` lies in [−½, ½] (same statement as `G.C01.abs_minImg1_le_half`, repeated here so
+that this file does not depend on the trajectory model) -/
+private theorem abs_minImg1_le_half (d : ℚ) : |minImg1 d| ≤ 1 / 2 := by
+  have h1 := Int.floor_le d
+  have h2 := Int.lt_floor_add_one d
+  unfold minImg1
+  rw [abs_le]
+  rcases rne_cases d with ⟨h, hr⟩ | ⟨h, hr⟩ <;> rw [h] <;> push_cast <;> constructor <;> linarith
+
+private theorem rne_add_int (d : ℚ) (k : ℤ) (h : ∀ j : ℤ, d ≠ (j : ℚ) + 1 / 2) :
+    rne (d + k) = rne d + k := by
+  have hfl : ⌊d + (k : ℚ)⌋ = ⌊d⌋ + k := Int.floor_add_intCast d k
+  have hne : d - (⌊d⌋ : ℚ) ≠ 1 / 2 := fun he => h ⌊d⌋ (by linarith)
+  rcases rne_cases d with ⟨h1, hr1⟩ | ⟨h1, hr1⟩ <;>
+    rcases rne_cases (d + k) with ⟨h2, hr2⟩ | ⟨h2, hr2⟩ <;>
+    rw [h1, h2, hfl] <;> rw [hfl] at hr2 <;> push_cast at hr2
+  · exact absurd (le_antisymm hr1 (by linarith)) hne
+  · exact absurd (le_antisymm (by linarith) hr1) hne
+  · ring
+
+private theorem minImg1_add_int (d : ℚ) (k : ℤ) (h : ∀ j : ℤ, d ≠ (j : ℚ) + 1 / 2) :
+    minImg1 (d + k) = minImg1 d := by
+  unfold minImg1
+  rw [rne_add_int d k h]
+  push_cast
+  ring
+
+/-- the images of `v` are the images of its componentwise reduction -/
+theorem shiftBy_map (v : V3) (n1 n2 n3 : ℤ) :
+    shiftBy v n1 n2 n3 = shiftBy (v.map minImg1) (n1 + rne v.x) (n2 + rne v.y) (n3 + rne v.z) := by
+  simp only [shiftBy, V3.map, minImg1, V3.mk.injEq]
+  refine ⟨?_, ?_, ?_⟩ <;> push_cast <;> ring
 
 /-- **the model's periodic distance is the true minimum-image distance**: whenever
 `minImageSqCert` returns a value, it is the minimum of `Q G (v + n)` over all `n ∈ ℤ³`, attained. -/
@@ -65,24 +355,61 @@ theorem minImageSqCert_spec (G : Sym3) (hpd : PosDef G) (v : V3) (m : ℚ)
     (h : minImageSqCert G v = some m) :
     (∀ n1 n2 n3 : ℤ, m ≤ G.Q (shiftBy v n1 n2 n3)) ∧
     (∃ n1 n2 n3 : ℤ, m = G.Q (shiftBy v n1 n2 n3)) := by
-  sorry
+  obtain ⟨K, hmK, hcK⟩ := minImageSqAux_some G (v.map minImg1) 8 1 m h
+  have hb1 : |(v.map minImg1).x| ≤ 1 / 2 := abs_minImg1_le_half v.x
+  have hb2 : |(v.map minImg1).y| ≤ 1 / 2 := abs_minImg1_le_half v.y
+  have hb3 : |(v.map minImg1).z| ≤ 1 / 2 := abs_minImg1_le_half v.z
+  rw [hmK] at hcK
+  have hall := minImage_certified G hpd (v.map minImg1) hb1 hb2 hb3 K hcK
+  constructor
+  · intro n1 n2 n3
+    rw [hmK, shiftBy_map v n1 n2 n3]
+    exact hall _ _ _
+  · obtain ⟨k1, k2, k3, _, _, _, hk⟩ := boxMin_attained G (v.map minImg1) K
+    refine ⟨k1 - rne v.x, k2 - rne v.y, k3 - rne v.z, ?_⟩
+    rw [hmK, hk, shiftBy_map v]
+    congr 2 <;> ring
 
 theorem Q_neg (G : Sym3) (v : V3) : G.Q (-v) = G.Q v := by
-  sorry
+  show G.Q (V3.neg v) = G.Q v
+  simp only [Sym3.Q, V3.neg]
+  ring
 
 /-- parallelogram law for the quadratic form -/
 theorem Q_parallelogram (G : Sym3) (u v : V3) : G.Q (u + v) + G.Q (u - v) = 2 * G.Q u + 2 * G.Q v := by
-  sorry
+  show G.Q (V3.add u v) + G.Q (V3.sub u v) = 2 * G.Q u + 2 * G.Q v
+  simp only [Sym3.Q, V3.add, V3.sub]
+  ring
 
 /-- invariance under whole-cell translations of either point (periodicity) -/
 theorem minImageSqCert_shift (G : Sym3) (v : V3) (n1 n2 n3 : ℤ) (hn : ∀ k : ℤ, v.x ≠ k + 1/2 ∧ v.y ≠ k + 1/2 ∧ v.z ≠ k + 1/2) :
     minImageSqCert G (shiftBy v n1 n2 n3) = minImageSqCert G v := by
-  sorry
+  have hx : minImg1 (v.x + n1) = minImg1 v.x := minImg1_add_int v.x n1 (fun k => (hn k).1)
+  have hy : minImg1 (v.y + n2) = minImg1 v.y := minImg1_add_int v.y n2 (fun k => (hn k).2.1)
+  have hz : minImg1 (v.z + n3) = minImg1 v.z := minImg1_add_int v.z n3 (fun k => (hn k).2.2)
+  have hmap : (shiftBy v n1 n2 n3).map minImg1 = v.map minImg1 := by
+    simp only [shiftBy, V3.map, hx, hy, hz]
+  unfold minImageSqCert
+  rw [hmap]
+
+/-- the image `n` of `a − b` has the length of the image `−n` of `b − a` -/
+theorem Q_shift_swap (G : Sym3) (a b : V3) (n1 n2 n3 : ℤ) :
+    G.Q (shiftBy (a - b) n1 n2 n3) = G.Q (shiftBy (b - a) (-n1) (-n2) (-n3)) := by
+  show G.Q (shiftBy (V3.sub a b) n1 n2 n3) = G.Q (shiftBy (V3.sub b a) (-n1) (-n2) (-n3))
+  simp only [Sym3.Q, shiftBy, V3.sub]
+  push_cast
+  ring
 
 /-- the periodic distance is symmetric in its two points (when certified) -/
 theorem pbcDist_symm (G : Sym3) (hpd : PosDef G) (a b : V3) (m m' : ℚ)
     (h : minImageSqCert G (b - a) = some m) (h' : minImageSqCert G (a - b) = some m') : m = m' := by
-  sorry
+  obtain ⟨hle, k1, k2, k3, hk⟩ := minImageSqCert_spec G hpd (b - a) m h
+  obtain ⟨hle', j1, j2, j3, hj⟩ := minImageSqCert_spec G hpd (a - b) m' h'
+  apply le_antisymm
+  · rw [hj, Q_shift_swap]
+    exact hle _ _ _
+  · rw [hk, Q_shift_swap]
+    exact hle' _ _ _
 
 /-- non-vacuity: a strongly triclinic cell -/
 example :
